@@ -331,6 +331,11 @@ def run(ctx):
         n = rng.randrange(8, 70)
         if u < 0.6:
             pts, fam = gen.dyadic_curve(rng, n, rng.choice(['missratio', 'steps', 'convex', 'concave', 'elbows', 'walk', 'plateau', 'zeros', 'noisyline']), scale_exp=0)
+            pts, vt = gen.near_ties(rng, pts, 0.25 if fam in ('steps', 'plateau', 'missratio') else 0.05)
+            fam += vt
+            if not vt:
+                pts, vt = gen.magnitude(rng, pts, 0.12, ('xytiny30', 'ytiny30', 'xoff30', 'yoff30', 'xyhuge30'))
+                fam += vt
         elif u < 0.8:
             pts, fam = gen.float_curve(rng, n)
         else:
